@@ -81,31 +81,32 @@ mod mac_basic__gen;
 mod mac_basic__srcpar;
 mod mac_nested__ser;
 mod mac_gensym_disj__exp;
-mod rnd_core_01__par;
-mod rnd_core_04__ser;
-mod rnd_core_06__pari;
-mod rnd_core_09__par;
-mod rnd_core_12__ser;
-mod rnd_core_14__pari;
-mod rnd_core_17__par;
-mod rnd_core_20__ser;
-mod rnd_core_22__pari;
-mod rnd_core_25__par;
-mod rnd_core_28__ser;
-mod rnd_core_30__pari;
-mod rnd_agg_03__par;
-mod rnd_agg_06__ser;
-mod rnd_agg_08__pari;
-mod rnd_agg_11__par;
-mod rnd_agg_14__ser;
-mod rnd_prec_01__pari;
-mod rnd_prec_03__ser;
-mod rnd_prec_04__to;
-mod rnd_prec_06__par;
-mod rnd_prec_07__topar;
-mod rnd_prea_01__pari;
-mod rnd_prea_04__par;
-mod rnd_prea_07__ser;
+mod stress_lat__par;
+mod rnd_core_02__ser;
+mod rnd_core_04__pari;
+mod rnd_core_07__par;
+mod rnd_core_10__ser;
+mod rnd_core_12__pari;
+mod rnd_core_15__par;
+mod rnd_core_18__ser;
+mod rnd_core_20__pari;
+mod rnd_core_23__par;
+mod rnd_core_26__ser;
+mod rnd_core_28__pari;
+mod rnd_agg_01__par;
+mod rnd_agg_04__ser;
+mod rnd_agg_06__pari;
+mod rnd_agg_09__par;
+mod rnd_agg_12__ser;
+mod rnd_agg_14__pari;
+mod rnd_prec_01__topar;
+mod rnd_prec_03__pari;
+mod rnd_prec_05__ser;
+mod rnd_prec_06__to;
+mod rnd_prec_08__par;
+mod rnd_prea_02__par;
+mod rnd_prea_05__ser;
+mod rnd_prea_07__pari;
 
 fn lookup(name: &str) -> fn() -> Box<dyn Driven> {
    match name {
@@ -182,31 +183,32 @@ fn lookup(name: &str) -> fn() -> Box<dyn Driven> {
       "mac_basic__srcpar" => mac_basic__srcpar::make,
       "mac_nested__ser" => mac_nested__ser::make,
       "mac_gensym_disj__exp" => mac_gensym_disj__exp::make,
-      "rnd_core_01__par" => rnd_core_01__par::make,
-      "rnd_core_04__ser" => rnd_core_04__ser::make,
-      "rnd_core_06__pari" => rnd_core_06__pari::make,
-      "rnd_core_09__par" => rnd_core_09__par::make,
-      "rnd_core_12__ser" => rnd_core_12__ser::make,
-      "rnd_core_14__pari" => rnd_core_14__pari::make,
-      "rnd_core_17__par" => rnd_core_17__par::make,
-      "rnd_core_20__ser" => rnd_core_20__ser::make,
-      "rnd_core_22__pari" => rnd_core_22__pari::make,
-      "rnd_core_25__par" => rnd_core_25__par::make,
-      "rnd_core_28__ser" => rnd_core_28__ser::make,
-      "rnd_core_30__pari" => rnd_core_30__pari::make,
-      "rnd_agg_03__par" => rnd_agg_03__par::make,
-      "rnd_agg_06__ser" => rnd_agg_06__ser::make,
-      "rnd_agg_08__pari" => rnd_agg_08__pari::make,
-      "rnd_agg_11__par" => rnd_agg_11__par::make,
-      "rnd_agg_14__ser" => rnd_agg_14__ser::make,
-      "rnd_prec_01__pari" => rnd_prec_01__pari::make,
-      "rnd_prec_03__ser" => rnd_prec_03__ser::make,
-      "rnd_prec_04__to" => rnd_prec_04__to::make,
-      "rnd_prec_06__par" => rnd_prec_06__par::make,
-      "rnd_prec_07__topar" => rnd_prec_07__topar::make,
-      "rnd_prea_01__pari" => rnd_prea_01__pari::make,
-      "rnd_prea_04__par" => rnd_prea_04__par::make,
-      "rnd_prea_07__ser" => rnd_prea_07__ser::make,
+      "stress_lat__par" => stress_lat__par::make,
+      "rnd_core_02__ser" => rnd_core_02__ser::make,
+      "rnd_core_04__pari" => rnd_core_04__pari::make,
+      "rnd_core_07__par" => rnd_core_07__par::make,
+      "rnd_core_10__ser" => rnd_core_10__ser::make,
+      "rnd_core_12__pari" => rnd_core_12__pari::make,
+      "rnd_core_15__par" => rnd_core_15__par::make,
+      "rnd_core_18__ser" => rnd_core_18__ser::make,
+      "rnd_core_20__pari" => rnd_core_20__pari::make,
+      "rnd_core_23__par" => rnd_core_23__par::make,
+      "rnd_core_26__ser" => rnd_core_26__ser::make,
+      "rnd_core_28__pari" => rnd_core_28__pari::make,
+      "rnd_agg_01__par" => rnd_agg_01__par::make,
+      "rnd_agg_04__ser" => rnd_agg_04__ser::make,
+      "rnd_agg_06__pari" => rnd_agg_06__pari::make,
+      "rnd_agg_09__par" => rnd_agg_09__par::make,
+      "rnd_agg_12__ser" => rnd_agg_12__ser::make,
+      "rnd_agg_14__pari" => rnd_agg_14__pari::make,
+      "rnd_prec_01__topar" => rnd_prec_01__topar::make,
+      "rnd_prec_03__pari" => rnd_prec_03__pari::make,
+      "rnd_prec_05__ser" => rnd_prec_05__ser::make,
+      "rnd_prec_06__to" => rnd_prec_06__to::make,
+      "rnd_prec_08__par" => rnd_prec_08__par::make,
+      "rnd_prea_02__par" => rnd_prea_02__par::make,
+      "rnd_prea_05__ser" => rnd_prea_05__ser::make,
+      "rnd_prea_07__pari" => rnd_prea_07__pari::make,
       _ => panic!("no such program variant in this shard: {}", name),
    }
 }
